@@ -866,7 +866,7 @@ def run_c17(ctx: Ctx):
         n_spec += 1
         for rule, placement, files in mutspec.all_edits(case.files, rng, per_rule_placements=3 if (ctx.tier == "thorough") else 2):
             ed = Case(files, f"{case.tag}+{rule}@{placement}", dict(case.flags, rule=rule, placement=placement))
-            ed.run = genlib.GenRun(files)
+            ed.run = genlib.GenRun(files, fresh_modules=False)
             try:
                 if ed.run.forest is None:
                     continue
@@ -900,6 +900,55 @@ def run_c17(ctx: Ctx):
             finally:
                 close_case(ed)
     ctx.part("valid specifications x rule-violating edits x placements", n, False, f"{n_spec} base specifications")
+    _run_c17_generic(ctx)
+
+
+def _run_c17_generic(ctx: Ctx):
+    """random small structural changes of valid specifications, with no expectation attached: the declarative checkers
+    (the ones the theorems are stated over) say whether the result is ill-formed; what they reject must be rejected by
+    the real generator, and real generator and model must agree on acceptance either way."""
+    rng = ctx.rng
+    per_base = 120 if ctx.tier == "thorough" or ctx.escalated else 40
+    n = n_ill = n_base = 0
+    for idx, case in enumerate(gencheck.spec_stream(ctx, 60 if ctx.tier == "thorough" else 12)):
+        base = genlib.GenRun(case.files)
+        ok = base.error is None
+        base.cleanup()
+        if not ok:
+            continue
+        n_base += 1
+        for _ in range(per_base):
+            r = mutspec.generic_edit(case.files, rng)
+            if r is None:
+                continue
+            what, files = r
+            if gencheck.degenerate_reason(files):
+                ctx.count("generic_edit.skipped_degenerate")
+                continue
+            ed = Case(files, f"{case.tag}+generic[{what}]", dict(case.flags, generic_edit=what))
+            ed.run = genlib.GenRun(files, fresh_modules=False)
+            try:
+                if ed.run.forest is None:
+                    continue
+                model = ctx.driver.ask1("gen load " + ed.run.forest)
+                bad = _wf_rejections(ctx.driver.ask1("gen wf"))
+                real_rejects = ed.run.error is not None
+                n += 1
+                n_ill += bool(bad)
+                ctx.count("generic_edit." + what.split(" ")[0] + (".ill-formed" if bad else ".well-formed-by-the-rules"))
+                ctx.sig(("generic", what.split(" ")[0], tuple(bad), real_rejects))
+                if bad and not real_rejects:
+                    fails(ctx, ed, f"specification rejected by the declarative rules ({', '.join(bad)}) after the change `{what}` is accepted "
+                          f"by the generator", {"edit": what, "checker": bad}, key="accepted:generic:" + "+".join(bad))
+                    return
+                if real_rejects != model.startswith("err"):
+                    if disagree(ctx, ed, f"generic edit `{what}`: real generator {'rejects: ' + repr(ed.run.error) if real_rejects else 'accepts'}, "
+                                f"model `{model[:120]}`", {"edit": what}, "compile error vs ProtocolCodeGenerator raising", "C17"):
+                        return
+            finally:
+                close_case(ed)
+    ctx.part("valid specifications x random structural changes judged by the declarative checkers", n, False,
+             f"{n_base} base specifications, {n_ill} results ill-formed by the rules")
 
 
 RULES["C17"] = ("valid catalogue and random specifications x one rule-violating edit from a catalogue of ~90 rules (type, field, length, "
